@@ -12,8 +12,27 @@ if "-j" in sys.argv:
 seeds = sorted(d for d in os.listdir(os.path.join(ROOT, "seeded")) if re.match(r"C\d\d-m\d+$", d))
 todo = [s for s in seeds if s[:3] in claimed and (not args or s[:3] in args or s in args)]
 
+# seeded changes that belong to one property by their text but are (also) decided by another property's check
+CROSS = {}
+cp = os.path.join(ROOT, "tools", "seedcross.txt")
+if os.path.exists(cp):
+    for l in open(cp):
+        f = l.split()
+        if len(f) >= 2 and not l.startswith("#"):
+            CROSS[f[0]] = f[1:]
+
+
 def one(s):
-    pid = s[:3]
+    v = one_with(s, s[:3])
+    if v[1] == "MISSED":
+        for other in CROSS.get(s, []):
+            w = one_with(s, other)
+            if w[1].startswith("caught"):
+                return s, w[1] + " (by the %s check; missed by %s)" % (other, s[:3]), w[2]
+    return v
+
+
+def one_with(s, pid):
     r = subprocess.run([os.path.join(ROOT, "tools", "seedtest.sh"), os.path.join(ROOT, "seeded", s, "patch.diff"), pid],
                        capture_output=True, text=True, cwd=ROOT)
     out = r.stdout + r.stderr
